@@ -389,7 +389,28 @@ def r10_11(ctx: Ctx) -> None:
                   "clear) whose attribute word lacks the DIRECTORY bit (attribute 0, ARCHIVE only, unix mode only) is listed and extracted as a file", construct="is_directory format rule")
 
 
+def r10_12(ctx: Ctx) -> None:
+    """one member's time stamp cannot abort the listing: a FILETIME is any 64-bit number, datetime ends with year 9999.  Every conversion of
+    a stored FILETIME to datetime in the listing functions (filetime_to_dt, ArchiveTimestamp.as_datetime, fromtimestamp) stands in a try
+    block that catches OverflowError, or the converter itself does."""
+    conv = ctx.prog.func("helpers", "filetime_to_dt")
+    self_guarded = any(isinstance(t, ast.Try) and any(h.type is not None and "OverflowError" in norm(h.type) for h in t.handlers) for t in walk(conv.node))
+    n = 0
+    for name in ("list", "getinfo", "archiveinfo"):
+        f = shared.szf(ctx, name)
+        for g, c, via in q.deep_nodes(ctx, f):
+            if isinstance(c, ast.Call) and attr_tail(c) in ("filetime_to_dt", "as_datetime", "fromtimestamp", "utcfromtimestamp"):
+                n += 1
+                guarded = self_guarded or any(isinstance(t, ast.Try) and any(c is x for st in t.body for x in ast.walk(st)) and
+                                              any(h.type is None or "OverflowError" in norm(h.type) or norm(h.type) in ("Exception",) for h in t.handlers) for t in walk(g.node))
+                ctx.check(guarded, "R10.12", g, c, f"{g.qname}: FILETIME conversion cannot abort the listing",
+                          f"`{norm(c)}` converts a stored FILETIME to datetime without catching OverflowError: one member dated after year 9999 (any value from 2650467744000000000 "
+                          "up, e.g. 2^63) makes list() raise, so no member of the archive can be listed", construct="unguarded FILETIME conversion")
+    ctx.floor("R10.12", n, 1, "FILETIME conversions in the listing functions")
+
+
 def run(ctx: Ctx) -> None:
+    r10_12(ctx)
     r10_11(ctx)
     from . import c08 as _c08
     _c08.r08_14(ctx, rule="R10.10")  # the listed crc32 of a member protected by a folder CRC
